@@ -6,10 +6,12 @@ CONSTANTS
   KeyU <- MC_KeyU
   PatU <- MC_PatU
   ParentU <- MC_ParentU
-  MaxVer = 2
+  Targets_ = {"s", "gg2", "own", "empty"}
+  Pats_ = {"?/s", "#", "$SYS/#", "u"}
+  MaxVer = 1
   MaxAcq = 0
-  MaxSubs = 0
-  NeedConnect = FALSE
+  MaxSubs = 1
+  NeedConnect = TRUE
 CONSTRAINT Bound
-INVARIANTS C01Inv C05Inv CleanTrees NeverDown EdgeInv
+INVARIANTS C01Inv C07State CleanTrees NeverDown EdgeInv
 CHECK_DEADLOCK FALSE
